@@ -67,10 +67,16 @@ func (w *World) access(t *Thread, p Ptr, write bool) {
 	if t == nil || p.o == nil || p.o.typ == nil {
 		return
 	}
-	// only fields of shared structs are interesting: objects allocated with a named struct type
-	name := fieldName(p.o.typ, idxs(p.path))
-	if !w.eng.raceTracked(name) {
-		return
+	// tracked memory: fields of the election / handler / monitor structs, and local variables of library
+	// functions that escape to closures and goroutines
+	name := p.o.label
+	if name == "" {
+		name = fieldName(p.o.typ, idxs(p.path))
+		if !w.eng.raceTracked(name) {
+			return
+		}
+	} else if strings.HasSuffix(name, ".e") || strings.HasSuffix(name, ".ctx") || strings.HasSuffix(name, ".d") || strings.HasSuffix(name, ".m") {
+		return // captured receivers / parameters are written once before the goroutine starts
 	}
 	if p.o.acc == nil {
 		p.o.acc = map[string]*accInfo{}
